@@ -1,90 +1,27 @@
-import Psa.Standard
-import Psa.RegistryProofs
+import Psa.Revs
+import Psa.Registry
+import Psa.Generated.Meta
 namespace PSA
 
-inductive RevId
-  | allowPrivEsc8 | allowPrivEsc25 | appArmor0 | capsBaseline0 | capsRestricted22 | capsRestricted25
-  | hostNamespaces0 | hostPath0 | hostPorts0 | privileged0 | procMount0 | restrictedVolumes0
-  | runAsNonRoot0 | runAsUser23 | seLinux0 | seLinux31 | seccompB0 | seccompB19 | seccompR19 | seccompR25
-  | sysctls0 | sysctls27 | sysctls29 | sysctls32 | hostProcess0
-  deriving DecidableEq, Repr
+/-- the model function of a registered revision is found by (check id, minimum minor version) -/
+def revTable : List ((Str × Nat) × RevId) :=
+  [ ((b!"allowPrivilegeEscalation", 8), .allowPrivEsc8), ((b!"allowPrivilegeEscalation", 25), .allowPrivEsc25),
+    ((b!"appArmorProfile", 0), .appArmor0), ((b!"capabilities_baseline", 0), .capsBaseline0),
+    ((b!"capabilities_restricted", 22), .capsRestricted22), ((b!"capabilities_restricted", 25), .capsRestricted25),
+    ((b!"hostNamespaces", 0), .hostNamespaces0), ((b!"hostPathVolumes", 0), .hostPath0), ((b!"hostPorts", 0), .hostPorts0),
+    ((b!"privileged", 0), .privileged0), ((b!"procMount", 0), .procMount0), ((b!"restrictedVolumes", 0), .restrictedVolumes0),
+    ((b!"runAsNonRoot", 0), .runAsNonRoot0), ((b!"runAsUser", 23), .runAsUser23),
+    ((b!"seLinuxOptions", 0), .seLinux0), ((b!"seLinuxOptions", 31), .seLinux31),
+    ((b!"seccompProfile_baseline", 0), .seccompB0), ((b!"seccompProfile_baseline", 19), .seccompB19),
+    ((b!"seccompProfile_restricted", 19), .seccompR19), ((b!"seccompProfile_restricted", 25), .seccompR25),
+    ((b!"sysctls", 0), .sysctls0), ((b!"sysctls", 27), .sysctls27), ((b!"sysctls", 29), .sysctls29), ((b!"sysctls", 32), .sysctls32),
+    ((b!"windowsHostProcess", 0), .hostProcess0) ]
 
-open RevId in
-def run (T : Tables) (relax : Bool) : RevId → Pod → CheckOut
-  | allowPrivEsc8 => allowPrivilegeEscalation_1_8
-  | allowPrivEsc25 => allowPrivilegeEscalation_1_25 T
-  | appArmor0 => appArmorProfile_1_0 T
-  | capsBaseline0 => capabilitiesBaseline_1_0 T
-  | capsRestricted22 => capabilitiesRestricted_1_22 T
-  | capsRestricted25 => capabilitiesRestricted_1_25 T
-  | hostNamespaces0 => hostNamespaces_1_0
-  | hostPath0 => hostPathVolumes_1_0
-  | hostPorts0 => hostPorts_1_0
-  | privileged0 => privileged_1_0
-  | procMount0 => procMount_1_0 T relax
-  | restrictedVolumes0 => restrictedVolumes_1_0 T
-  | runAsNonRoot0 => runAsNonRoot_1_0 relax
-  | runAsUser23 => runAsUser_1_23 relax
-  | seLinux0 => seLinuxOptions_1_0 T
-  | seLinux31 => seLinuxOptions_1_31 T
-  | seccompB0 => seccompBaseline_1_0 T
-  | seccompB19 => seccompBaseline_1_19 T
-  | seccompR19 => seccompRestricted_1_19 T
-  | seccompR25 => seccompRestricted_1_25 T
-  | sysctls0 => sysctls T.sysctls0
-  | sysctls27 => sysctls T.sysctls27
-  | sysctls29 => sysctls T.sysctls29
-  | sysctls32 => sysctls T.sysctls32
-  | hostProcess0 => windowsHostProcess_1_0
+def revOf (id : Str) (minor : Nat) : Option RevId := (revTable.find? (fun e => e.1 = (id, minor))).map (·.2)
 
-/-- registration metadata (regenerated from policy.DefaultChecks()) with the model revision attached -/
+/-- registration metadata (regenerated from policy.DefaultChecks() on every run) with the model revision attached -/
 def shipped : List (Check RevId) :=
-  [ ⟨b!"allowPrivilegeEscalation", .restricted, [⟨.mm 1 8, .allowPrivEsc8, []⟩, ⟨.mm 1 25, .allowPrivEsc25, []⟩]⟩,
-    ⟨b!"appArmorProfile", .baseline, [⟨.mm 1 0, .appArmor0, []⟩]⟩,
-    ⟨b!"capabilities_baseline", .baseline, [⟨.mm 1 0, .capsBaseline0, []⟩]⟩,
-    ⟨b!"capabilities_restricted", .restricted, [⟨.mm 1 22, .capsRestricted22, [b!"capabilities_baseline"]⟩, ⟨.mm 1 25, .capsRestricted25, [b!"capabilities_baseline"]⟩]⟩,
-    ⟨b!"hostNamespaces", .baseline, [⟨.mm 1 0, .hostNamespaces0, []⟩]⟩,
-    ⟨b!"hostPathVolumes", .baseline, [⟨.mm 1 0, .hostPath0, []⟩]⟩,
-    ⟨b!"hostPorts", .baseline, [⟨.mm 1 0, .hostPorts0, []⟩]⟩,
-    ⟨b!"privileged", .baseline, [⟨.mm 1 0, .privileged0, []⟩]⟩,
-    ⟨b!"procMount", .baseline, [⟨.mm 1 0, .procMount0, []⟩]⟩,
-    ⟨b!"restrictedVolumes", .restricted, [⟨.mm 1 0, .restrictedVolumes0, [b!"hostPathVolumes"]⟩]⟩,
-    ⟨b!"runAsNonRoot", .restricted, [⟨.mm 1 0, .runAsNonRoot0, []⟩]⟩,
-    ⟨b!"runAsUser", .restricted, [⟨.mm 1 23, .runAsUser23, []⟩]⟩,
-    ⟨b!"seLinuxOptions", .baseline, [⟨.mm 1 0, .seLinux0, []⟩, ⟨.mm 1 31, .seLinux31, []⟩]⟩,
-    ⟨b!"seccompProfile_baseline", .baseline, [⟨.mm 1 0, .seccompB0, []⟩, ⟨.mm 1 19, .seccompB19, []⟩]⟩,
-    ⟨b!"seccompProfile_restricted", .restricted, [⟨.mm 1 19, .seccompR19, [b!"seccompProfile_baseline"]⟩, ⟨.mm 1 25, .seccompR25, [b!"seccompProfile_baseline"]⟩]⟩,
-    ⟨b!"sysctls", .baseline, [⟨.mm 1 0, .sysctls0, []⟩, ⟨.mm 1 27, .sysctls27, []⟩, ⟨.mm 1 29, .sysctls29, []⟩, ⟨.mm 1 32, .sysctls32, []⟩]⟩,
-    ⟨b!"windowsHostProcess", .baseline, [⟨.mm 1 0, .hostProcess0, []⟩]⟩ ]
-
-theorem shipped_wf : WellFormed shipped where
-  ids := by decide
-  levels := by decide
-  nonempty := by decide
-  major := by decide
-  increasing := by decide
-  overrides := by decide
-
-theorem shipped_max : maxVersionOf shipped = .mm 1 32 := by decide
-
-/-- which revisions run, written the way a reader of the Standard would: by version thresholds -/
-def activeBaseline (V : Nat) : List RevId :=
-  [.appArmor0, .capsBaseline0, .hostNamespaces0, .hostPath0, .hostPorts0, .privileged0, .procMount0,
-   (if V < 31 then .seLinux0 else .seLinux31), (if V < 19 then .seccompB0 else .seccompB19),
-   (if V < 27 then .sysctls0 else if V < 29 then .sysctls27 else if V < 32 then .sysctls29 else .sysctls32),
-   .hostProcess0]
-
-def activeRestricted (V : Nat) : List RevId :=
-  [.appArmor0] ++ (if V < 22 then [.capsBaseline0] else []) ++ [.hostNamespaces0, .hostPorts0, .privileged0, .procMount0,
-   (if V < 31 then .seLinux0 else .seLinux31)] ++ (if V < 19 then [.seccompB0] else []) ++
-   [(if V < 27 then .sysctls0 else if V < 29 then .sysctls27 else if V < 32 then .sysctls29 else .sysctls32),
-   .hostProcess0] ++
-   (if V < 8 then [] else if V < 25 then [.allowPrivEsc8] else [.allowPrivEsc25]) ++
-   (if V < 22 then [] else if V < 25 then [.capsRestricted22] else [.capsRestricted25]) ++
-   [.restrictedVolumes0, .runAsNonRoot0] ++ (if V < 23 then [] else [.runAsUser23]) ++
-   (if V < 19 then [] else if V < 25 then [.seccompR19] else [.seccompR25])
-
-theorem spec_baseline_table : ∀ V, V ≤ 32 → spec shipped .baseline V = activeBaseline V := by decide
-theorem spec_restricted_table : ∀ V, V ≤ 32 → spec shipped .restricted V = activeRestricted V := by decide
+  Generated.metaChecks.map (fun c =>
+    ⟨c.1, c.2.1, c.2.2.map (fun r => ⟨.mm r.1 r.2.1, (revOf c.1 r.2.1).getD .privileged0, r.2.2⟩)⟩)
 
 end PSA
